@@ -45,6 +45,7 @@ const tuPkg = "pkg/timeutil."
 func runC13(c *eng.Ctx) {
 	everyFamilyOfTheSegmentExamined(c)
 	overlapIsAClosedIntervalTest(c)
+	familyTimeComposedOfTheCalendarFunctions(c)
 	acceptedIntervalsArePositive(c)
 	rowsInsideFirstRowsFamilyRange(c)
 	rollupSlotBaseIsTheFamilyStart(c)
